@@ -311,26 +311,6 @@ fn has_ready_default_ancestor(rd: &Rendered, e: &ElemInfo, step: u8) -> bool {
     false
 }
 
-/// Input class of KF-C13-L1 / KF-C12-L1: line 1 of the file is non-empty indentation followed
-/// by the opening tag (alone on the line) of a ready element. Returns (element id, indentation).
-pub fn l1_indented_ready_tag(rd: &Rendered, step: u8) -> Option<(usize, String)> {
-    let t = &rd.text;
-    let le = line_end(t, 0);
-    let l1 = &t[..le];
-    let ind = indent_of(l1);
-    if ind.is_empty() {
-        return None;
-    }
-    let e = rd
-        .elems
-        .iter()
-        .find(|e| e.open.0 == ind.len() && e.ready(step))?;
-    if e.open.1 > le || !blank(&t[e.open.1..le]) {
-        return None;
-    }
-    Some((e.id, ind.to_string()))
-}
-
 /// Block documents: every tag alone on its line. `out` is the clean output.
 pub fn line_check(rd: &Rendered, step: u8, ext: &[(usize, usize)], out: &str) -> LineReport {
     let mut rep = LineReport {
@@ -469,32 +449,6 @@ pub fn line_check(rd: &Rendered, step: u8, ext: &[(usize, usize)], out: &str) ->
                 rep.n_body_lines = n;
                 if let Some(m) = first_bad {
                     v = V::Violated(m);
-                    // KF-C12-L1: exact model of "dedent measured from column 0 for a block whose
-                    // indented opening tag is on line 1"
-                    if let Some((id, ind)) = l1_indented_ready_tag(rd, step) {
-                        if let Some((model, glued)) = kf_c12_l1_model(rd, step, id, &ind, &exp, &lt) {
-                            let matches_model = surv.iter().enumerate().all(|(k, (li, l))| {
-                                if !in_body_line(*li) {
-                                    return true;
-                                }
-                                let o = out_nb[k].1;
-                                let oi = indent_of(o);
-                                let same_rest = o[oi.len()..] == l.text[indent_of(&l.text).len()..];
-                                let from_old = if Some(*li) == glued {
-                                    oi.starts_with(ind.as_str()) && is_subseq(&oi[ind.len()..], indent_of(&l.text))
-                                } else {
-                                    is_subseq(oi, indent_of(&l.text))
-                                };
-                                indent_len(o) == model[*li] && same_rest && from_old
-                            });
-                            if matches_model {
-                                v = V::Known(
-                                    "KF-C12-L1",
-                                    format!("{} inner lines dedented from column 0 / tag indentation glued (opening tag indented on line 1)", all_bad.len()),
-                                );
-                            }
-                        }
-                    }
                 } else if n == 0 {
                     v = V::NA;
                 }
@@ -519,36 +473,6 @@ pub fn line_check(rd: &Rendered, step: u8, ext: &[(usize, usize)], out: &str) ->
                 full_a.get(k), full_b.get(k), full_a.len(), full_b.len()
             );
             rep.c13a = V::Violated(msg);
-            // KF-C13-L1: the only deviation is the tag's indentation glued onto the first
-            // surviving non-blank line after the block that starts on line 1
-            if let Some((id, ind)) = l1_indented_ready_tag(rd, step) {
-                let e = &rd.elems[id];
-                if !e.unwrap {
-                    let _ = e;
-                    // every line between line 1 and the first surviving non-blank line must be a
-                    // removed line (a run of adjacent removed blocks, no blank line in between)
-                    if let Some(pos) = surv.iter().position(|(li, _)| *li > 0) {
-                        let (li, _) = surv[pos];
-                        // at least two adjacent removed blocks (a single block no longer glues
-                        // since 2b77a29; if that comes back it is a new violation)
-                        let blocks_in_run = rd
-                            .elems
-                            .iter()
-                            .filter(|x| x.ready(step) && !has_ready_default_ancestor(rd, x, step) && line_of(&ls, x.open.0) < li)
-                            .count();
-                        if pos == 0 && blocks_in_run >= 2 && (0..li).all(|l| lt[l].removed) {
-                            let mut patched: Vec<String> = full_a.iter().map(|s| s.to_string()).collect();
-                            patched[pos] = format!("{ind}{}", patched[pos]);
-                            if patched.iter().map(|s| s.as_str()).collect::<Vec<_>>() == full_b {
-                                rep.c13a = V::Known(
-                                    "KF-C13-L1",
-                                    format!("indentation {:?} of the opening tag on line 1 glued onto {:?}", ind, full_a[pos]),
-                                );
-                            }
-                        }
-                    }
-                }
-            }
         }
 
         // ---- C13b: blank-line arithmetic
@@ -600,46 +524,6 @@ pub fn line_check(rd: &Rendered, step: u8, ext: &[(usize, usize)], out: &str) ->
         }
     }
     rep
-}
-
-/// Exact model of KF-C12-L1 (what is left of it after the repairs e94acc8 / 2b77a29): for the
-/// unwrapped block whose indented opening tag is on line 1, when the first inner line(s) are
-/// themselves removed (a nested ready block directly after the wrapper line, no blank line in
-/// between), the tag's indentation that stays behind on line 1 is glued in front of the first
-/// surviving inner line. Indentation is otherwise exactly the reference dedent. Only defined
-/// when that block contains no further unwrapped block.
-fn kf_c12_l1_model(rd: &Rendered, step: u8, id: usize, ind: &str, exp: &[usize], lt: &[Line]) -> Option<(Vec<usize>, Option<usize>)> {
-    let e = &rd.elems[id];
-    if !e.unwrap {
-        return None;
-    }
-    let t = &rd.text;
-    unwrap_parts(t, e)?;
-    let us = ready_unwrapped(rd, step);
-    let me = us.iter().find(|u| u.id == id)?;
-    if us.iter().any(|u| u.id != id && u.open_line > me.open_line && u.close_line < me.close_line) {
-        return None;
-    }
-    let first_inner = me.open_line + 2;
-    if first_inner + 2 > me.close_line {
-        return None;
-    }
-    let mut m = exp.to_vec();
-    let mut glued = None;
-    let mut removed_run = 0;
-    for l in first_inner..me.close_line - 1 {
-        if lt[l].removed {
-            removed_run += 1;
-            continue;
-        }
-        if !blank(&lt[l].text) && removed_run > 0 {
-            m[l] += ind.chars().count();
-            glued = Some(l);
-        }
-        break;
-    }
-    glued?;
-    Some((m, glued))
 }
 
 // ------------------------------------------------------------------ listing oracles (C15 C16 C17)
